@@ -1,0 +1,46 @@
+//! Verification hooks for streaming sounds (compiled only with `--cfg kira_verif`):
+//! build a streaming sound without spawning the decoder thread and step the decoder by hand.
+#![allow(missing_docs)]
+
+use super::{
+	sound::decode_scheduler::{DecodeScheduler, NextStep},
+	StreamingSoundData, StreamingSoundHandle,
+};
+use crate::sound::Sound;
+
+/// The decoder side of a streaming sound, stepped manually.
+pub struct HScheduler<Error: Send + 'static>(DecodeScheduler<Error>);
+
+#[derive(Debug, Clone, Copy, PartialEq, Eq)]
+pub enum HNextStep {
+	Continue,
+	Wait,
+	End,
+}
+
+impl<Error: Send + 'static> HScheduler<Error> {
+	/// One iteration of the decoder loop body (`DecodeScheduler::run`).
+	pub fn run(&mut self) -> Result<HNextStep, Error> {
+		self.0.run().map(|s| match s {
+			NextStep::Continue => HNextStep::Continue,
+			NextStep::Wait => HNextStep::Wait,
+			NextStep::End => HNextStep::End,
+		})
+	}
+	pub fn current_frame(&self) -> usize {
+		self.0.current_frame()
+	}
+	/// Spawn the real decoder thread (`DecodeScheduler::start`).
+	pub fn start(self) {
+		self.0.start()
+	}
+}
+
+/// `StreamingSoundData::split` with the sound boxed as `dyn Sound`.
+#[allow(clippy::type_complexity)]
+pub fn split<Error: Send + 'static>(
+	data: StreamingSoundData<Error>,
+) -> Result<(Box<dyn Sound>, StreamingSoundHandle<Error>, HScheduler<Error>), Error> {
+	let (sound, handle, scheduler) = data.split()?;
+	Ok((Box::new(sound), handle, HScheduler(scheduler)))
+}
